@@ -30,7 +30,7 @@ def run(case) -> dict:
     probes: t.Dict[str, int] = {}
     observed = []
     with world.installed(ctx_factory=drive.stub_ctx_factory(CFG, record)):
-        if config == "seed":
+        if config.startswith("seed"):
             dc = refdc.RefDC(world, [RK], host=offline.DC, caller_sids={SID}, acceptor_factory=drive.stub_acceptor_factory(CFG))
         instants = [(h, 0) for h in history] + [(ft, sub_ns)]
         out = None
@@ -38,8 +38,10 @@ def run(case) -> dict:
             world.clock.set_filetime(t_ft, t_sub)
             world.clock.tick_per_read_ns = tick_ns if i == len(instants) - 1 else 0
             world.clock.reads.clear()
-            before = len(dc.getkey_log) if config == "seed" else 0
-            kw = {"server": offline.DC} if config == "seed" else {}
+            before = len(dc.getkey_log) if config.startswith("seed") else 0
+            kw = {"server": offline.DC} if config.startswith("seed") else {}
+            if config == "seed-offline" and i == len(instants) - 1:
+                world.partitioned = True  # the DC cannot be reached for the last call
             out = drive.classify(lambda: offline.call_api(world, fl, "protect", b"x", SID, root_key_identifier=RK.root_key_id, cache=cache, **kw))
             if out.kind != "ok":
                 break
@@ -53,6 +55,10 @@ def run(case) -> dict:
             t_last = (max(reads) // 100 + gkdi.FILETIME_EPOCH) if reads else t_ft
             observed.append((t_ft, (p["l0"], p["l1"], p["l2"]), from_cache, t_last))
     viol = None
+    if config == "seed-offline" and out.kind == "raise" and len(observed) == len(history):
+        # no key material covers "now" and the DC is unreachable: failing is the correct outcome; naming some other interval is not
+        probes["uncovered_offline_raises"] = 1
+        out = drive.Outcome("ok", None)
     if out.kind != "ok":
         viol = common.violation("C09", "protect-failed", fl + "-" + config, *drive.exc_sig(out), "", f"protect at filetime {ft} failed: {out.exc!r}")
     else:
@@ -71,7 +77,7 @@ def run(case) -> dict:
                 break
             if from_cache:
                 probes["from_cache"] = 1
-                if config == "seed":
+                if config.startswith("seed"):
                     probes["from_cached_seed"] = 1
             if got != want and from_cache:
                 d = t_ft % B
@@ -101,7 +107,7 @@ class C09(common.Check):
     components = {"client": "real (ncrypt_protect_secret / async, KeyCache, _get_protection_gke_from_cache)", "clock": "simulated (dpapi_ng._client.time seam)",
                   "DC": "model (RefDC) in the 'seed' configuration", "parser of the emitted blob": "model (ref.cms)"}
     assumptions = ["interval formula in exact integer arithmetic on FILETIME ticks (ref.gkdi.interval_of_filetime)"]
-    required_fired = ("from_cache", "from_cached_seed", "clk_jump_back", "clock_ticks_per_read")
+    required_fired = ("from_cache", "from_cached_seed", "clk_jump_back", "clock_ticks_per_read", "uncovered_offline_raises")
 
     def exhaustive(self, tier):
         return True
@@ -150,6 +156,12 @@ class C09(common.Check):
             for k, tick_ticks in ((1, 1), (2, 1), (1, 2), (3, 2), (1, 1000)):
                 for base in (l0 * 1024 * B, (l0 * 1024 + 32 * (l0 % 31 + 1)) * B, (l0 * 1024 + l0 % 1000 + 1) * B):
                     out.append(["rk", "sync" if (l0 + k) % 2 else "async", base - k, 0, [], tick_ticks * 100])
+        # a cache that only holds a DC-obtained seed; the clock then moves past that seed's interval while the DC is unreachable
+        for _ in range(300 if tier == "quick" else 8000):
+            l0 = rng.randrange(330, 500)
+            got = l0 * 1024 * B + rng.randrange(0, 1000 * B)
+            later = got + rng.choice((B, 2 * B, 32 * B, 40 * B, 1024 * B, rng.randrange(B, 30 * B)))
+            out.append(["seed-offline", rng.choice(("sync", "async")), later, 0, [got]])
         for l0 in range(330, 500, 5 if tier == "quick" else 1):
             # obtain at the very end of the epoch, then protect within the last ticks of the epoch (still covered by the cached seed)
             end = (l0 + 1) * 1024 * B
@@ -172,7 +184,7 @@ class C09(common.Check):
             yield [config, fl, ft, 0, hist]
         if fl == "async":
             yield [config, "sync", ft, sub, hist]
-        if config == "seed":
+        if config.startswith("seed"):
             yield ["rk", fl, ft, sub, []]
 
     def sample_repr(self, case, res):
